@@ -50,3 +50,38 @@ Definition value_table (values : list pv) : list (pv * nat) :=
 Definition enum_exact_load (values : list pv) (d : pv) : option nat :=
   if hashable d then lookup_pyeq d (value_table values) else None.
 Definition enum_exact_dump (values : list pv) (m : nat) : option pv := nth_error values m.
+
+(* ---- enum_by_name (ByNameEnumMappingGenerator + EnumNameProvider): every member gets a string - the entry of `map`
+   keyed by the member itself, else the entry keyed by its name, else the name converted by name_style, else the name;
+   the dumper is the table member -> string, the loader the dict {string: member} built in definition order (a later
+   member with the same string replaces an earlier one). Members are their indices; `style` is the name conversion
+   (Model/NameStyle.v's convert, None when the name is not snake case: the library raises). ---- *)
+Section ByName.
+Variable style : string -> option string.
+Fixpoint assoc_n (k : nat) (l : list (nat * string)) : option string :=
+  match l with [] => None | (k', v) :: r => if Nat.eqb k k' then Some v else assoc_n k r end.
+Fixpoint assoc_s (k : string) (l : list (string * string)) : option string :=
+  match l with [] => None | (k', v) :: r => if String.eqb k k' then Some v else assoc_s k r end.
+Definition mapped_name (by_member : list (nat * string)) (by_name : list (string * string)) (i : nat) (name : string) : option string :=
+  match assoc_n i by_member with
+  | Some s => Some s
+  | None => match assoc_s name by_name with Some s => Some s | None => style name end
+  end.
+(* the mapping of all members, None when a conversion fails *)
+Fixpoint name_mapping_from (by_member : list (nat * string)) (by_name : list (string * string)) (i : nat) (names : list string)
+  : option (list (nat * string)) :=
+  match names with
+  | [] => Some []
+  | n :: r => match mapped_name by_member by_name i n, name_mapping_from by_member by_name (S i) r with
+              | Some s, Some t => Some ((i, s) :: t)
+              | _, _ => None
+              end
+  end.
+Definition name_dump (mapping : list (nat * string)) (m : nat) : option string := assoc_n m mapping.
+(* {mapped: member for member, mapped in mapping.items()}: the LAST member with that string wins *)
+Fixpoint name_load (mapping : list (nat * string)) (s : string) : option nat :=
+  match mapping with
+  | [] => None
+  | (m, s') :: r => match name_load r s with Some m' => Some m' | None => if String.eqb s s' then Some m else None end
+  end.
+End ByName.
